@@ -39,7 +39,23 @@ fn parse_value<'a>(src: &mut &'a [u8]) -> io::Result<&'a BStr> {
 }
 
 fn parse_string<'a>(src: &mut &'a [u8]) -> io::Result<&'a BStr> {
-    let Some(i) = src.iter().position(|c| *c == DOUBLE_QUOTES) else {
+    const BACKSLASH: u8 = b'\\';
+
+    // The string ends at the first double quote that is not part of an escape sequence, e.g.,
+    // `\"`.
+    let mut is_escaped = false;
+
+    let Some(i) = src.iter().position(|&c| {
+        if is_escaped {
+            is_escaped = false;
+            false
+        } else if c == BACKSLASH {
+            is_escaped = true;
+            false
+        } else {
+            c == DOUBLE_QUOTES
+        }
+    }) else {
         return Err(io::Error::from(io::ErrorKind::InvalidData));
     };
 
